@@ -54,6 +54,7 @@ type Template struct {
 	Reason     int       `json:"reason"`
 	Serial     rev.Bytes `json:"serial"`
 	IHash      string    `json:"ihash"`
+	SigAlg     string    `json:"sigalg"` // requested hash of template.SignatureAlgorithm, "default" = 0
 	ThisUpdate int       `json:"thisUpdate"`
 	NextUpdate int       `json:"nextUpdate"`
 	RevokedAt  int       `json:"revokedAt"`
@@ -69,6 +70,7 @@ type Fields struct {
 	RevokedAt  int       `json:"revokedAt"`
 	Reason     int       `json:"reason"`
 	IHash      string    `json:"ihash"`
+	SigAlg     string    `json:"sigalg"` // label of the response, e.g. "ecdsa-sha256"
 	Responder  string    `json:"responder"`
 	HasCert    bool      `json:"hasCert"`
 	Exts       []rev.Ext `json:"exts"`
@@ -115,7 +117,9 @@ type Case struct {
 	Idx     int        `json:"idx"`
 	Variant int        `json:"variant"` // concretisation variant of times (0 plain, 1 +fraction, 2 other zone)
 	Flip    *FlipPoint `json:"flip,omitempty"`
-	API     string     `json:"api,omitempty"` // "ParseResponse" | "ParseResponseForCert"
+	API     string     `json:"api,omitempty"`    // "ParseResponse" | "ParseResponseForCert"
+	SigAlg  string     `json:"sigalg,omitempty"` // accept family: requested signature hash
+	Label   string     `json:"label,omitempty"`  // accept family: demanded label of the response
 	Rid     *Rid       `json:"rid,omitempty"`
 }
 
@@ -271,6 +275,58 @@ func newHash(name string) hash.Hash {
 	return nil
 }
 
+// requested template.SignatureAlgorithm for a signing key and a hash name
+func requestedAlg(k crypto.Signer, hash string) x509.SignatureAlgorithm {
+	_, rsaKey := k.Public().(*stdrsa.PublicKey)
+	switch {
+	case hash == "default" || hash == "":
+		return 0
+	case rsaKey:
+		return map[string]x509.SignatureAlgorithm{"sha1": x509.SHA1WithRSA, "sha256": x509.SHA256WithRSA, "sha384": x509.SHA384WithRSA, "sha512": x509.SHA512WithRSA}[hash]
+	default:
+		return map[string]x509.SignatureAlgorithm{"sha1": x509.ECDSAWithSHA1, "sha256": x509.ECDSAWithSHA256, "sha384": x509.ECDSAWithSHA384, "sha512": x509.ECDSAWithSHA512}[hash]
+	}
+}
+
+var zAlgName = map[x509.SignatureAlgorithm]string{
+	x509.SHA1WithRSA: "rsa-sha1", x509.SHA256WithRSA: "rsa-sha256", x509.SHA384WithRSA: "rsa-sha384", x509.SHA512WithRSA: "rsa-sha512",
+	x509.ECDSAWithSHA1: "ecdsa-sha1", x509.ECDSAWithSHA256: "ecdsa-sha256", x509.ECDSAWithSHA384: "ecdsa-sha384", x509.ECDSAWithSHA512: "ecdsa-sha512",
+}
+
+// the label as the harness reads it from the DER (OID -> standard library algorithm)
+var oidAlg = map[string]struct {
+	name string
+	std  stdx509.SignatureAlgorithm
+}{
+	"1.2.840.113549.1.1.5": {"rsa-sha1", stdx509.SHA1WithRSA}, "1.2.840.113549.1.1.11": {"rsa-sha256", stdx509.SHA256WithRSA},
+	"1.2.840.113549.1.1.12": {"rsa-sha384", stdx509.SHA384WithRSA}, "1.2.840.113549.1.1.13": {"rsa-sha512", stdx509.SHA512WithRSA},
+	"1.2.840.10045.4.1": {"ecdsa-sha1", stdx509.ECDSAWithSHA1}, "1.2.840.10045.4.3.2": {"ecdsa-sha256", stdx509.ECDSAWithSHA256},
+	"1.2.840.10045.4.3.3": {"ecdsa-sha384", stdx509.ECDSAWithSHA384}, "1.2.840.10045.4.3.4": {"ecdsa-sha512", stdx509.ECDSAWithSHA512},
+}
+
+// wellSigned: independent reading of a response produced by CreateResponse (standard library
+// only): the label and whether the signature verifies under `signer` with the labelled algorithm.
+func wellSigned(der []byte, signer crypto.Signer) (label string, ok bool) {
+	var o sResp
+	if rest, err := asn1.Unmarshal(der, &o); err != nil || len(rest) != 0 {
+		return "?unreadable", false
+	}
+	var b sBasic
+	if rest, err := asn1.Unmarshal(o.Response.Response, &b); err != nil || len(rest) != 0 {
+		return "?unreadable", false
+	}
+	var ai stdpkix.AlgorithmIdentifier
+	if _, err := asn1.Unmarshal(b.Alg.FullBytes, &ai); err != nil {
+		return "?unreadable", false
+	}
+	a, known := oidAlg[ai.Algorithm.String()]
+	if !known {
+		return "?" + ai.Algorithm.String(), false
+	}
+	probe := &stdx509.Certificate{PublicKey: signer.Public()}
+	return a.name, probe.CheckSignature(a.std, b.TBS.FullBytes, b.Sig.RightAlign()) == nil
+}
+
 var statusCode = map[string]int{"good": ocsp.Good, "revoked": ocsp.Revoked, "unknown": ocsp.Unknown}
 
 func statusName(c int) string {
@@ -327,6 +383,7 @@ func createResponse(w *world, t Template, sc Scenario, variant int) ([]byte, err
 	if t.IHash != "default" {
 		tmpl.IssuerHash = hashByName[t.IHash]
 	}
+	tmpl.SignatureAlgorithm = requestedAlg(w.keys[sc.Signer], t.SigAlg)
 	if sc.Embedded != "none" {
 		tmpl.Certificate = w.z[sc.Embedded]
 	}
@@ -365,6 +422,7 @@ func nameOfRaw(raw []byte) string {
 func project(r *ocsp.Response) Fields {
 	f := Fields{Status: statusName(r.Status), Revoked: r.IsRevoked, Serial: rev.ContentFromInt(r.SerialNumber),
 		ThisUpdate: secs(r.ThisUpdate), NextUpdate: secs(r.NextUpdate), RevokedAt: -1, IHash: hashName(r.IssuerHash),
+		SigAlg:    zAlgName[r.SignatureAlgorithm],
 		Responder: nameOfRaw(r.RawResponderName), HasCert: r.Certificate != nil, Exts: []rev.Ext{}}
 	if r.Status == ocsp.Revoked {
 		// only demanded for revoked responses
@@ -398,6 +456,8 @@ func diff(got, want Fields) string {
 		return "reason"
 	case got.IHash != want.IHash:
 		return "ihash"
+	case got.SigAlg != want.SigAlg:
+		return "sigalg"
 	case got.Responder != want.Responder:
 		return "responder"
 	case got.HasCert != want.HasCert:
@@ -455,19 +515,32 @@ func judgeParsed(c Case, fam string, r *ocsp.Response, err error, verdict string
 
 // ---- family: roundtrip and accept ----------------------------------------------------------
 
-var acceptTemplate = Template{Status: "good", Serial: rev.Bytes{1}, IHash: "default", ThisUpdate: 86400, NextUpdate: 172800, RevokedAt: 3600, Exts: []rev.Ext{}}
+var acceptTemplate = Template{Status: "good", Serial: rev.Bytes{1}, IHash: "default", SigAlg: "default", ThisUpdate: 86400, NextUpdate: 172800, RevokedAt: 3600, Exts: []rev.Ext{}}
 
 func runRoundTrip(c Case, out sink) {
 	w := getWorld(c.KT)
 	t := acceptTemplate
 	if c.T != nil {
 		t = *c.T
+	} else if c.SigAlg != "" {
+		t.SigAlg = c.SigAlg
 	}
 	der, err := createResponse(w, t, *c.SC, c.Variant)
 	if err != nil {
 		sig := map[string]any{"family": c.Family, "kind": "create-failed", "kt": c.KT[0] + c.KT[1]}
 		out(finding{fmt.Sprintf("%s: CreateResponse failed on a well-formed template: %v", c.Family, err), sig, c})
 		return
+	}
+	// whatever the scenario: the output of CreateResponse must carry the demanded label and the
+	// label must be true (signature verifies under the signing key with the labelled algorithm)
+	wantLabel := c.Label
+	if c.Want != nil {
+		wantLabel = c.Want.SigAlg
+	}
+	if label, ok := wellSigned(der, w.keys[c.SC.Signer]); !ok || (wantLabel != "" && label != wantLabel) {
+		sig := map[string]any{"family": c.Family, "kind": "label", "kt": c.KT[0] + c.KT[1], "requested": t.SigAlg, "verifies": ok}
+		out(finding{fmt.Sprintf("%s: CreateResponse output is labelled %s (specification demands %s); signature verifies under the signer's key with the labelled algorithm (standard library): %v; requested %q",
+			c.Family, label, wantLabel, ok, t.SigAlg), sig, c})
 	}
 	var forCert *x509.Certificate
 	if c.API == "ParseResponseForCert" {
@@ -1207,6 +1280,7 @@ func record(path string, n int) {
 		rng.Read(sb)
 		serial := rev.ContentFromInt(rev.IntFromContent(sb))
 		t := Template{Status: statuses[rng.Intn(3)], Reason: reasons[rng.Intn(len(reasons))], Serial: serial, IHash: hashes[rng.Intn(5)],
+			SigAlg:     hashes[rng.Intn(5)],
 			ThisUpdate: rng.Intn(1 << 30), NextUpdate: rng.Intn(1 << 31), RevokedAt: rng.Intn(1 << 30), Exts: []rev.Ext{}}
 		for j := rng.Intn(3); j > 0; j-- {
 			v := make([]byte, rng.Intn(6))
@@ -1220,10 +1294,13 @@ func record(path string, n int) {
 		}
 		r, perr, _ := parse(der, nil, wd.z[sc.Verifier])
 		f := Fields{Serial: rev.Bytes{0}, Exts: []rev.Ext{}}
+		// label as read by the harness (standard library) and whether it is true
+		label, wellsigned := wellSigned(der, wd.keys[sc.Signer])
 		if perr == nil {
 			f = project(r)
 		}
-		w.Write(map[string]any{"t": t, "sc": sc, "kt": kt, "accepted": perr == nil, "fields": f, "variant": i})
+		w.Write(map[string]any{"t": t, "sc": sc, "kt": kt, "accepted": perr == nil, "fields": f, "variant": i,
+			"label": label, "wellsigned": wellsigned})
 	}
 	w.Close()
 	obs.Stat("observations", n)
